@@ -27,7 +27,7 @@ RULE = ("case = (serde configuration, value description). Values: a recursive Hy
         "(str(x).encode('ascii')); payload is bytes or ASCII str; 0 <= flags < 2^16; compressed flag set iff the "
         "stored form is the codec's output for the inner payload and decompresses to it; stored form never longer "
         "than the inner payload; min_compress_len=0 never compresses; a PickleSerde(p) pickle uses no opcode newer than protocol p. Non-trivial: the value is not plain bytes/str, "
-        "or its inner payload is longer than the threshold.")
+        "or its inner payload is longer than the threshold. Graph-shaped values (a list / dict that contains itself, a child pointing back at its parent, one object reached twice) are part of the grid and compared as graphs. Sequences: several values through ONE serializer object (also the module-level pickle_serde / compressed_serde singletons), first one after the other and then all serialized before any is deserialized; the sequences contain 'twins' - values of different types whose serialized payload is byte-identical (a str and its bytes, an int and its digits, an object and its own pickle kept as bytes) - in every order, at sizes around every threshold.")
 MANIFEST = {
     "category": "exploration",
     "technique": "Hypothesis recursive value generation + enumerated grid of (leaf kind x serde configuration x threshold-straddling sizes); round-trip oracle through the client's own wire encoding, plus flag/size invariants for the compressed serializer",
@@ -109,6 +109,27 @@ def build(d):
         return frozenset(build(x) for x in d[1])
     if t == "dict":
         return {build(k): build(v) for k, v in d[1]}
+    if t == "payload-of":
+        # a bytes value that is byte-for-byte the serialized form of another value (same payload, different type)
+        pl, _f = S.PickleSerde(d[2]).serialize("key", build(d[1]))
+        return wire(pl)
+    if t == "cyclic-list":
+        v = [build(x) for x in d[1]]
+        v.append(v)
+        return v
+    if t == "cyclic-dict":
+        v = {build(k): build(x) for k, x in d[1]}
+        v["self"] = v
+        return v
+    if t == "back-pointer":
+        # (plain containers: pickle protocols 0 and 1 cannot pickle a cycle that runs through a list/dict SUBCLASS)
+        parent = [build(x) for x in d[1]]
+        child = {"parent": parent, "siblings": [parent, parent]}
+        parent.append(child)
+        return parent
+    if t == "shared":
+        x = build(d[1])
+        return [x, x, {"again": x}]
     if t == "sub":
         v = SUBS[d[1]](build(d[2]))
         if d[3] is not None and d[1] in ("MyList", "MyDict"):
@@ -117,15 +138,23 @@ def build(d):
     raise ValueError(t)
 
 
-def same(a, b):
+def same(a, b, _open=None):
+    """equal, with identical types at every level; values that contain themselves are compared as graphs (a pair of
+    containers already being compared is taken as equal - the comparison of their remaining parts decides)"""
     if type(a) is not type(b):
         return False
+    if isinstance(a, (list, dict)):
+        _open = _open if _open is not None else set()
+        if (id(a), id(b)) in _open:
+            return True
+        _open = _open | {(id(a), id(b))}
     if isinstance(a, (list, tuple)):
-        return len(a) == len(b) and all(same(x, y) for x, y in zip(a, b)) and getattr(a, "__dict__", None) == getattr(b, "__dict__", None)
+        return (len(a) == len(b) and all(same(x, y, _open) for x, y in zip(a, b))
+                and _same_attrs(a, b, _open))
     if isinstance(a, dict):
-        return (len(a) == len(b) and all(k in b and same(v, b[k]) for k, v in a.items())
+        return (len(a) == len(b) and all(k in b and same(v, b[k], _open) for k, v in a.items())
                 and all(any(same(k, k2) for k2 in b if k2 == k) for k in a)
-                and getattr(a, "__dict__", None) == getattr(b, "__dict__", None))
+                and _same_attrs(a, b, _open))
     if isinstance(a, (set, frozenset)):
         return a == b and all(any(same(x, y) for y in b if y == x) for x in a)
     if isinstance(a, float):
@@ -133,6 +162,13 @@ def same(a, b):
     if isinstance(a, complex):
         return same(a.real, b.real) and same(a.imag, b.imag)
     return a == b
+
+
+def _same_attrs(a, b, _open):
+    da, db = getattr(a, "__dict__", None), getattr(b, "__dict__", None)
+    if da is None or db is None:
+        return da is db
+    return sorted(da) == sorted(db) and all(same(da[k], db[k], _open) for k in da)
 
 
 def make_serde(cfg):
@@ -145,6 +181,10 @@ def make_serde(cfg):
         return S.LegacyWrappingSerde(S.get_python_memcache_serializer(cfg[1]), S.python_memcache_deserializer)
     if t == "default-compressed":
         return S.CompressedSerde()
+    if t == "module-compressed":
+        return S.compressed_serde
+    if t == "module-pickle":
+        return S.pickle_serde
     if t == "compressed":
         comp, decomp = CODECS[cfg[1]]
         return S.CompressedSerde(compress=comp, decompress=decomp, serde=make_serde(cfg[3]), min_compress_len=cfg[2])
@@ -159,9 +199,31 @@ def wire(payload, encoding="ascii"):
 
 def check(case):
     cfg, desc = case
-    v = build(desc)
+    return _check_one(make_serde(cfg), cfg, build(desc))
+
+
+def check_sequence(case):
+    """several values through ONE serializer object, first one after the other, then all serialized before any is
+    deserialized: what the object did for an earlier value must not leak into a later one"""
+    cfg, descs = case
     sd = make_serde(cfg)
-    what = "%r on %s" % (cfg, _short(v))
+    vals = [build(d) for d in descs]
+    nt, labels = False, set()
+    for v in vals:
+        a, b = _check_one(sd, cfg, v, " (value %d of the sequence %s through one serializer object)" % (vals.index(v), _short(vals)))
+        nt, labels = nt or a, labels | set(b)
+    stored = [sd.serialize("key", v) for v in vals]
+    for v, (pl, fl) in zip(vals, stored):
+        back = sd.deserialize("key", wire(pl), fl)
+        if not same(v, back):
+            raise Violation(["round-trip", "sequence", type(v).__name__, cfg[0]], "serialized in a row through one serializer object, %s came back as %s (%s): sequence %s on %r"
+                            % (_short(v), _short(back), type(back).__name__, _short(vals), cfg))
+    twins = len({bytes(wire(pl)) for pl, _f in stored}) < len(stored) and len({type(v) for v in vals}) > 1
+    return nt and len(vals) > 1, sorted(labels | {"sequence"} | ({"same-payload-different-type"} if twins else set()))
+
+
+def _check_one(sd, cfg, v, ctx=""):
+    what = "%r on %s%s" % (cfg, _short(v), ctx)
     try:
         payload, flags = sd.serialize("key", v)
     except Exception as e:  # noqa: BLE001
@@ -189,7 +251,7 @@ def check(case):
         if used > proto:
             raise Violation(["pickle-protocol"], "PickleSerde(%d) produced a pickle needing protocol %d: %s" % (proto, used, what))
     over = False
-    if cfg[0] in ("compressed", "default-compressed"):
+    if cfg[0] in ("compressed", "default-compressed", "module-compressed"):
         if cfg[0] == "compressed":
             comp, decomp = CODECS[cfg[1]]
             minlen = cfg[2]
@@ -220,7 +282,10 @@ def check(case):
 
 
 def _short(v):
-    r = repr(v)
+    try:
+        r = repr(v)
+    except RecursionError:
+        r = "<deeply nested %s>" % type(v).__name__
     return r if len(r) < 120 else r[:60] + "...(%d chars)" % len(r)
 
 
@@ -295,14 +360,57 @@ def grid_cases(tier, seed):
                ("sub", "MyBytes", ("bytes", b"b" * 500), None), ("sub", "MyList", ("list", [("int", 1)]), "n"),
                ("sub", "MyDict", ("dict", []), "note"), ("bigint", 4000, 1, 1), ("bigint", 4000, 9, -1),
                ("dict", [[("str", "k"), ("bytes", b"v" * 500)]]), ("decimal", "1.50"), ("datetime", [2024, 2, 29, 23, 59, 59, 999999]),
-               ("complex", 1.5, -2.0), ("frozenset", [("int", 1), ("str", "a")]), ("set", [])]
+               ("complex", 1.5, -2.0), ("frozenset", [("int", 1), ("str", "a")]), ("set", []),
+               # values that contain themselves, reach an object twice, or point back at their parent
+               ("cyclic-list", []), ("cyclic-list", [("int", 1), ("str", "x" * 500)]), ("cyclic-dict", []), ("cyclic-dict", [[("str", "k"), ("bytes", b"v" * 450)]]),
+               ("back-pointer", [("int", 7)]), ("back-pointer", [("str", "y" * 600)]), ("shared", ("list", [("int", 1), ("int", 2)])),
+               ("shared", ("sub", "MyList", ("list", [("int", 1)]), "n")), ("shared", ("bytes", b"z" * 450))]
+    configs += [("module-compressed",), ("module-pickle",)]
     for c in configs:
         for v in values:
             yield (c, v)
 
 
+def sequence_cases(tier, seed):
+    configs = [("default-compressed",), ("module-compressed",), ("module-pickle",), ("pickle", 2), ("legacy-pm",)]
+    for codec in ("zlib", "identity", "expanding") if tier == "quick" else sorted(CODECS):
+        for ml in (0, 1, 10, 400):
+            for p in (0, 5):
+                configs.append(("compressed", codec, ml, ("pickle", p)))
+    fams = []
+    for n in (0, 1, 5, 11, 12, 399, 401, 450, 1200):
+        fams.append([("str", "x" * n), ("bytes", b"x" * n)])
+        fams.append([("str", "x" * n), ("bytes", b"x" * n), ("sub", "MyStr", ("str", "x" * n), None), ("sub", "MyBytes", ("bytes", b"x" * n), None)])
+        fams.append([("bigint", max(1, n), 1, 1), ("bytes", b"1" + b"7" * (max(1, n) - 1)), ("str", "1" + "7" * (max(1, n) - 1))])
+        for p in (0, 2, 5):
+            obj = ("list", [("str", "ab" * n), ("int", n)])
+            fams.append([obj, ("payload-of", obj, p)])
+            fams.append([("bool", True), ("payload-of", ("bool", True), p), ("int", 1)])
+    fams.append([("int", 1), ("bool", True), ("bytes", b"1"), ("str", "1")])
+    fams.append([("none",), ("bytes", b""), ("str", "")])
+    for c in configs:
+        for fam in fams:
+            yield (c, fam)
+            yield (c, fam[::-1])
+            if len(fam) > 2:
+                yield (c, fam[1:] + fam[:1])
+
+
+def sequence_strategy(tier):
+    def twin(d):
+        return st.sampled_from([0, 2, 4, 5]).map(lambda p: ("payload-of", d, p))
+    one = value_strategy()
+    pair = one.flatmap(lambda d: st.tuples(st.just(d), twin(d)).map(list))
+    seq = st.lists(st.one_of(one.map(lambda d: [d]), pair), min_size=1, max_size=4).map(lambda ll: [d for l in ll for d in l])
+    shuffled = seq.flatmap(lambda l: st.permutations(l))
+    return st.tuples(st.one_of(config_strategy(), st.sampled_from([("module-compressed",), ("module-pickle",)])), shuffled)
+
+
 PARTS = [
     Part("grid", "enum", check, cases=grid_cases, exhaustive=False),
+    Part("one-serializer-object", "enum", check_sequence, cases=sequence_cases),
+    Part("random-sequences", "hyp", check_sequence, strategy=sequence_strategy,
+         examples={"quick": 300, "thorough": 12000}, shards={"quick": 4, "thorough": 16}),
     Part("random", "hyp", check, strategy=random_strategy,
          examples={"quick": 700, "thorough": 30000}, shards={"quick": 4, "thorough": 16}),
 ]
